@@ -43,6 +43,20 @@ def gen_variants():
                         k += 1
             if "log" in KINDS:
                 out.append((m.relpath, "log", fi, 0))
+            if "swapand" in KINDS:
+                k = 0
+                for n in ast.walk(fn):
+                    if isinstance(n, ast.BoolOp) and len(n.values) == 2 and all(isinstance(v, (ast.Compare, ast.Name, ast.Attribute)) for v in n.values):
+                        out.append((m.relpath, "swapand", fi, k))
+                        k += 1
+            if "elsereturn" in KINDS:
+                k = 0
+                for n in ast.walk(fn):
+                    if isinstance(n, ast.If) and n.orelse and not (len(n.orelse) == 1 and isinstance(n.orelse[0], ast.If)) and n.body and isinstance(n.body[-1], (ast.Return, ast.Continue)):
+                        out.append((m.relpath, "elsereturn", fi, k))
+                        k += 1
+            if "noop" in KINDS:
+                out.append((m.relpath, "noop", fi, 0))
             if "swapeq" in KINDS:
                 k = 0
                 for n in ast.walk(fn):
@@ -96,6 +110,37 @@ def apply(v):
         fn.body.insert(idx, ast.parse("logging.debug('enter')").body[0])
         if "import logging" not in src:
             mod.body.insert(0, ast.parse("import logging").body[0])
+    elif kind == "swapand":
+        k = 0
+        for n in ast.walk(fn):
+            if isinstance(n, ast.BoolOp) and len(n.values) == 2 and all(isinstance(v, (ast.Compare, ast.Name, ast.Attribute)) for v in n.values):
+                if k == arg:
+                    n.values.reverse()
+                    break
+                k += 1
+    elif kind == "elsereturn":
+        k = 0
+        done = False
+        for p in ast.walk(fn):
+            for fld in ("body", "orelse", "finalbody"):
+                lst = getattr(p, fld, None)
+                if not isinstance(lst, list):
+                    continue
+                for i, n in enumerate(lst):
+                    if isinstance(n, ast.If) and n.orelse and not (len(n.orelse) == 1 and isinstance(n.orelse[0], ast.If)) and n.body and isinstance(n.body[-1], (ast.Return, ast.Continue)):
+                        if k == arg and not done:
+                            tail = n.orelse
+                            n.orelse = []
+                            lst[i + 1:i + 1] = tail
+                            done = True
+                        k += 1
+                if done:
+                    break
+            if done:
+                break
+    elif kind == "noop":
+        idx = 1 if (fn.body and isinstance(fn.body[0], ast.Expr) and isinstance(fn.body[0].value, ast.Constant)) else 0
+        fn.body.insert(idx, ast.parse("unused_marker = 0").body[0])
     elif kind == "swapeq":
         k = 0
         for n in ast.walk(fn):
